@@ -2,7 +2,7 @@
 # confirm_seed.sh <id> <seed-dir>: independently confirms a seeded fault in a scratch worktree:
 #   demo passes on the unmodified tree, fails with the patch; the existing suite passes with the patch.
 # Writes <seed-dir>/confirm.log and prints a one-line summary.
-id="$1"; dir="$2"; wt=/tmp/wt-confirm
+id="$1"; dir="$2"; wt=${WT:-/tmp/wt-confirm}   # WT=<existing scratch worktree> reuses its warm build cache
 export RUSTC_BOOTSTRAP=1 CARGO_NET_OFFLINE=true
 log="$dir/confirm.log"; : > "$log"
 if [ ! -d $wt ]; then git -C /repo worktree add -q --detach $wt HEAD && cp -r /tmp/target-base $wt/target; fi
